@@ -577,6 +577,8 @@ def call_method_model(I, recv, name, args, kwargs, node=None):
     if isinstance(v, ZVal):
         return zval_method(I, v, name, args, kwargs, node)
     if isinstance(v, LList):
+        if name == "copy":
+            return v  # element-wise copy: same elements (container identity is not modelled)
         if name == "count":
             n = c.fresh("count", IntS)
             c.assume(z3.And(n >= 0, n <= I.llist_len(v)))
